@@ -574,16 +574,16 @@ func runC10(env *mc.Env) {
 				x /= nv
 				anyF = anyF || !c10Variants[vs[i]].Absent
 			}
-			for _, comp := range c10Comps {
+			for ci, comp := range c10Comps {
 				if !anyF && comp == "inherit" {
 					continue // no f anywhere: nothing to call
 				}
-				for _, kind := range c10Kinds {
+				for ki, kind := range c10Kinds {
 					// body variants: the full cross for graphs on <= 2 interfaces and in the thorough tier;
 					// in the quick tier a 3-interface program gets one variant, rotating over all six
 					bodies := []int{0, 1, 2, 3, 4, 5}
 					if !env.Thorough() && sh.N == 3 {
-						bodies = []int{len(progs) % 6}
+						bodies = []int{(idx + ci*2 + ki) % 6}
 					}
 					for _, b := range bodies {
 						progs = append(progs, &c10Case{Shape: sh.Name, Variants: vs, Comp: comp, Kind: kind, Body: b})
@@ -673,7 +673,7 @@ func replayC10(env *mc.Env, raw json.RawMessage) (bool, string) {
 func init() {
 	mc.Register(&mc.Check{
 		ID:   "C10",
-		Rule: "every program of: 9 interface graphs on <= 3 interfaces (single, chains, forks, diamond, vee, redundant conformance) x per-interface declaration variant of f (absent / pre / post / both with emit conditions / with or without default body; 6 variants quick, 10 thorough) x composite (inherits the default / overrides / overrides with own conditions and emits) x struct/resource, accepted by the checker; each is called with a non-falsifying argument through every call site (direct, interface-typed reference, nested inside another conditioned function, bound function) and once per applicable condition with the argument that falsifies exactly that condition (x != k, unique k); non-trivial = distinct (program, site, falsified condition) that produced the condition error, and accepted programs with >= 1 condition",
+		Rule: "every program of: 9 interface graphs on <= 3 interfaces (single, chains, forks, diamond, vee, redundant conformance) x per-interface declaration variant of f (absent / pre / post / both with emit conditions / with or without default body; 6 variants quick, 10 thorough) x composite (inherits the default / overrides / overrides with own conditions and emits) x struct/resource x body variant (plain, closure bound to a local, inner function, called closure, early return, inner function with own conditions; full cross for <= 2 interfaces and in thorough, rotating for 3 interfaces in quick), accepted by the checker; each is called with a non-falsifying argument through every call site (direct, interface-typed reference, nested inside another conditioned function, bound function) and once per applicable condition with the argument that falsifies exactly that condition (x != k, unique k); non-trivial = distinct (program, site, falsified condition) that produced the condition error, and accepted programs with >= 1 condition",
 		Assumptions: []string{
 			"oracle: applicable conditions = own + those of every interface in the transitive conformance closure; success iff none is false; a failure must be a ConditionError carrying the message of the only false condition; post blocks also assert before(self.n)+1 == self.n (body increments n) and result == x+100",
 			"a false pre-condition must be detected before the body logs, a false post-condition after it logged exactly once; on success every applicable emit condition's event appears exactly once",
